@@ -340,6 +340,27 @@ extern size_t vc_cstr_max;         /* a C string argument has its terminator wit
 #define VC_R   (parser->buffer_size - VC_OLD(parser->buffer_used) - 1)
 #define VC_LEN (VC_SVAL(parser->buffer + VC_P + 1, VC_TOK_W(VC_B)))
 
+/*---------------------------------------------------------------------------*/
+/* print callbacks                                                            */
+/*---------------------------------------------------------------------------*/
+extern size_t vc_len_sum;      /* ghost: sum of the would-be lengths returned by snprintf (verif/stubs) */
+extern size_t vc_prf_events;   /* ghost: number of printf calls */
+#define VC_CTX(c)             ((struct _to_string_ctx *) (c))
+#define VC_NS_OBJECT_BEGIN    0x0200U
+#define VC_NS_OBJECT_END      0x0400U
+#define VC_NS_ARRAY_BEGIN     0x0800U
+#define VC_NS_ARRAY_END       0x1000U
+#define VC_NS_FIELD_NAME      0x8000U
+#define VC_IS_TOKEN_CODE(x)   ((x) == VC_NS_STRING || (x) == VC_NS_BOOLEAN || (x) == VC_NS_DOUBLE ||      \
+                               (x) == VC_NS_INTEGER || (x) == VC_NS_BYTES || (x) == VC_NS_OBJECT_BEGIN || \
+                               (x) == VC_NS_OBJECT_END || (x) == VC_NS_ARRAY_BEGIN ||                     \
+                               (x) == VC_NS_ARRAY_END || (x) == VC_NS_FIELD_NAME)
+/* a single token must render in at most INT_MAX characters (snprintf returns int): names/strings
+ * "..." + colon, bytes two characters per byte. Beyond that the size accounting of to_string is
+ * wrong (DESIGN.md 5/C13: found by this contract, confirmed natively) */
+#define VC_MAX_RENDER_NAME    ((size_t) 2147483000)
+#define VC_MAX_RENDER_BYTES   ((size_t) 1073741000)
+
 #endif /* BINSON_C_LIGHT_VERIF */
 
 #endif /* _BINSON_VERIF_H_ */
